@@ -16,7 +16,8 @@ func init() {
 		Pkgs:      []string{"container/lru", "container/iterable"},
 		Run:       runC08,
 		Technique: "static analysis: must-pass-through path queries and guard dominance on go/ssa of container/lru (callback/removal pairing, hit re-insert, eviction target, no insert on failure), plus the structural rules of the ordered map the recency list is built on",
-		Explanation: "R1: every items.Remove(k) is followed on all paths by the nil-guarded delete callback with the pair read for that key before the removal - except when it is followed in the same critical section by items.Add of the same key (move to most recent). " +
+		Explanation: "R13 (session 4): waiters released, in-flight entry dropped and value inserted in ONE critical section of the cache mutex, helpers/literals/deferred calls composed as summaries (the C09.R2 section rule under this property: a gap lets a second caller create again for one miss). " +
+			"R1: every items.Remove(k) is followed on all paths by the nil-guarded delete callback with the pair read for that key before the removal - except when it is followed in the same critical section by items.Add of the same key (move to most recent). " +
 			"R2: in the overflow branch the removed key is the result of items.First(); the branch is guarded by the strict comparison Len()>capacity evaluated after the Add. " +
 			"R3: items.Add on the miss path is dominated by the nil edge of the create function's error. R4: the create call is dominated by the not-found edge of items.Get. " +
 			"R5: the expirable wrapper removes and re-creates exactly on the GetExpiresAt().Before(now) edge and returns the value unchanged otherwise. " +
